@@ -1,11 +1,556 @@
-//! C17 — (not built yet)
-#![allow(unused_imports, unused_variables, dead_code)]
+//! C17 — DOM iterators, lengths and groupings agree with each other.
+//!
+//! op: `dom <input-hex> <tape>`
+//!   <tape> is the real parser's tape for <input-hex> printed with `show::text_tape` (the Lean
+//!   driver only looks at the tape; the harness re-parses the input with the REAL
+//!   `TextTape::from_slice`, checks that the tape is the one on the case line and walks the REAL
+//!   readers).  Result line (identical from `jmdriver`, computed from `Model/Dom.lean`):
+//!
+//!   `wf=1 R{O:<obj>} <vi>{O:<obj>;A:<arr>} <vi>{H:<arr>} …`          (nodes in increasing `vi`)
+//!     <obj> = `tl=<tokens_len>,fl=<fields_len>,sh=<size_hint.0>,F=[<keytok>/<op|->/<value idx> …],`
+//!             `gsh=<groups size_hint.0>,G=[<keytok>><op|->/<value idx>+… | …],rem=<arr>`
+//!     <arr> = `tl=<tokens_len>,len=<len>,sh=<lo>/<hi>,V=[<value idx> …]`
+//!   `R` is the root object reader, `<vi>` the tape index of an Array/Object token (object view =
+//!   `read_object`, array view = `read_array`) or of a Header token (header view = `read_array`).
+//!   Value indices are observed through `ValueReader::token()` (a reference into the tape:
+//!   pointer offset / size_of::<TextToken>()).  The walk visits every value the readers yield
+//!   (fields, remainder, values; header views skip their first element, which is the header token
+//!   itself) once, both with the Windows-1252 and the UTF-8 readers (must be identical).
+//!
+//! L3 oracles (implementation only): count(fields()) == fields_len() == size_hint at every step;
+//! count(values()) == len() == both size-hint bounds at every step; field_groups() == stable
+//! group-by-key of fields(); group.len() == count(group.values()); remainder == trailing part
+//! after the MixedContainer token (empty otherwise; the whole array for the object view of an
+//! array); groups.remainder() == fields.remainder(); no panic; both encodings agree.
 use crate::common::*;
+use crate::docgen::*;
+use crate::show::{op_name, text_tape, text_tape_tok};
+use jomini::text::{ArrayReader, ObjectReader, ValueReader};
+use jomini::{Encoding, TextTape, TextToken};
+use std::collections::{BTreeMap, BTreeSet};
 
-pub fn gen(g: &mut Gen) {}
+struct Walk<'t, 'd> {
+    toks: &'t [TextToken<'d>],
+    nodes: BTreeMap<usize, String>,
+    visited: BTreeSet<usize>,
+    viol: Vec<(String, String)>,
+}
+
+impl<'t, 'd> Walk<'t, 'd> {
+    fn vidx<E>(&self, v: &ValueReader<'d, 't, E>) -> usize {
+        let p = v.token() as *const TextToken as usize;
+        (p - self.toks.as_ptr() as usize) / std::mem::size_of::<TextToken>()
+    }
+
+    fn bad(&mut self, kind: &str, detail: String) {
+        if self.viol.len() < 8 {
+            self.viol.push((kind.to_string(), detail));
+        }
+    }
+
+    fn arr_view<E: Encoding + Clone>(&mut self, r: &ArrayReader<'d, 't, E>, at: &str, kids: &mut Vec<(usize, ValueReader<'d, 't, E>)>) -> String {
+        let tl = r.tokens_len();
+        let len = r.len();
+        let mut it = r.values();
+        let sh = it.size_hint();
+        let mut vs: Vec<usize> = vec![];
+        let mut hints: Vec<(usize, Option<usize>)> = vec![];
+        loop {
+            hints.push(it.size_hint());
+            match it.next() {
+                Some(v) => {
+                    let i = self.vidx(&v);
+                    vs.push(i);
+                    kids.push((i, v));
+                }
+                None => break,
+            }
+        }
+        let n = vs.len();
+        if n != len {
+            self.bad("values-len", format!("{}: count(values())={} len()={}", at, n, len));
+        }
+        for (k, h) in hints.iter().enumerate() {
+            if h.0 != n - k || h.1 != Some(n - k) {
+                self.bad("values-size-hint", format!("{}: after {} items size_hint={:?} remaining={}", at, k, h, n - k));
+            }
+        }
+        if r.is_empty() != (len == 0) {
+            self.bad("values-is-empty", format!("{}: is_empty={} len={}", at, r.is_empty(), len));
+        }
+        format!(
+            "tl={},len={},sh={}/{},V=[{}]",
+            tl,
+            len,
+            sh.0,
+            sh.1.map(|x| x.to_string()).unwrap_or("-".into()),
+            vs.iter().map(|x| x.to_string()).collect::<Vec<_>>().join(" ")
+        )
+    }
+
+    fn obj_view<E: Encoding + Clone>(&mut self, r: &ObjectReader<'d, 't, E>, at: &str, kids: &mut Vec<(usize, ValueReader<'d, 't, E>)>) -> String {
+        let tl = r.tokens_len();
+        let fl = r.fields_len();
+        let mut it = r.fields();
+        let sh = it.size_hint();
+        // (key token rendering, raw key bytes, op, value idx)
+        let mut fs: Vec<(String, Vec<u8>, &'static str, usize)> = vec![];
+        let mut hints = vec![];
+        loop {
+            hints.push(it.size_hint());
+            match it.next() {
+                Some((k, op, v)) => {
+                    let i = self.vidx(&v);
+                    fs.push((text_tape_tok(k.token()), k.read_scalar().as_bytes().to_vec(), op.map(op_name).unwrap_or("-"), i));
+                    kids.push((i, v));
+                }
+                None => break,
+            }
+        }
+        let n = fs.len();
+        if n != fl {
+            self.bad("fields-len", format!("{}: count(fields())={} fields_len()={}", at, n, fl));
+        }
+        for (k, h) in hints.iter().enumerate() {
+            if h.0 != n - k || h.1.is_some() {
+                self.bad("fields-size-hint", format!("{}: after {} items size_hint={:?} remaining={}", at, k, h, n - k));
+            }
+        }
+        // remainder after exhausting the fields
+        let rem = it.remainder();
+        let mut rem_kids = vec![];
+        let rem_s = self.arr_view(&rem, &format!("{}.rem", at), &mut rem_kids);
+        // L3: remainder == what follows the MixedContainer token at which the fields stopped, and
+        // (for the object view of an Array token) the whole array; otherwise empty.
+        {
+            let rem_vs: Vec<usize> = rem_kids.iter().map(|x| x.0).collect();
+            let expect = self.expected_remainder(at, &fs);
+            if let Some(exp) = expect {
+                if exp != rem_vs {
+                    self.bad("remainder", format!("{}: remainder values {:?} expected {:?}", at, rem_vs, exp));
+                }
+            }
+        }
+        // groups
+        let mut git = r.field_groups();
+        let gsh = git.size_hint();
+        let mut groups: Vec<(String, Vec<u8>, Vec<(&'static str, usize)>)> = vec![];
+        let mut ghints = vec![];
+        loop {
+            ghints.push(git.size_hint());
+            match git.next() {
+                Some((k, g)) => {
+                    let mut es = vec![];
+                    for (op, v) in g.values() {
+                        let i = self.vidx(&v);
+                        es.push((op.map(op_name).unwrap_or("-"), i));
+                    }
+                    if es.len() != g.len() || g.is_empty() {
+                        self.bad("group-len", format!("{}: group.len()={} values={}", at, g.len(), es.len()));
+                    }
+                    groups.push((text_tape_tok(k.token()), k.read_scalar().as_bytes().to_vec(), es));
+                }
+                None => break,
+            }
+        }
+        for (k, h) in ghints.iter().enumerate() {
+            if h.0 != groups.len() - k || h.1.is_some() {
+                self.bad("groups-size-hint", format!("{}: after {} groups size_hint={:?} remaining={}", at, k, h, groups.len() - k));
+            }
+        }
+        let grem = git.remainder();
+        let mut grem_kids = vec![];
+        let grem_s = self.arr_view(&grem, &format!("{}.grem", at), &mut grem_kids);
+        if grem_s != rem_s {
+            self.bad("groups-remainder", format!("{}: groups.remainder() {} fields.remainder() {}", at, grem_s, rem_s));
+        }
+        // L3: groups == stable group-by-key(fields), independent reference
+        {
+            let mut reference: Vec<(String, Vec<u8>, Vec<(&'static str, usize)>)> = vec![];
+            for (kt, kb, op, v) in &fs {
+                if let Some(g) = reference.iter_mut().find(|g| &g.1 == kb) {
+                    g.2.push((*op, *v));
+                } else {
+                    reference.push((kt.clone(), kb.clone(), vec![(*op, *v)]));
+                }
+            }
+            if reference != groups {
+                self.bad("groups", format!("{}: field_groups() {:?} != group-by(fields()) {:?}", at, groups, reference));
+            }
+        }
+        kids.extend(rem_kids);
+        format!(
+            "tl={},fl={},sh={},F=[{}],gsh={},G=[{}],rem={}",
+            tl,
+            fl,
+            sh.0,
+            fs.iter().map(|(k, _, op, v)| format!("{}/{}/{}", k, op, v)).collect::<Vec<_>>().join(" "),
+            gsh.0,
+            groups
+                .iter()
+                .map(|(k, _, es)| format!("{}>{}", k, es.iter().map(|(op, v)| format!("{}/{}", op, v)).collect::<Vec<_>>().join("+")))
+                .collect::<Vec<_>>()
+                .join(" | "),
+            rem_s
+        )
+    }
+
+    /// Independent reading of "the trailing array part": value indices (one per top-level value,
+    /// containers skipped through their `end`) of what follows the fields of the reader `at`.
+    fn expected_remainder(&self, at: &str, fs: &[(String, Vec<u8>, &'static str, usize)]) -> Option<Vec<usize>> {
+        let toks = self.toks;
+        let skip = |i: usize| match toks.get(i) {
+            Some(TextToken::Array { end, .. }) | Some(TextToken::Object { end, .. }) => end + 1,
+            _ => i + 1,
+        };
+        // range of the reader
+        let (start, end, is_array_tok) = if at == "R" {
+            (0usize, toks.len(), false)
+        } else {
+            let vi: usize = at.parse().ok()?;
+            match toks.get(vi)? {
+                TextToken::Object { end, .. } => (vi + 1, *end, false),
+                TextToken::Array { end, .. } => (vi + 1, *end, true),
+                _ => return None,
+            }
+        };
+        let list = |mut i: usize| {
+            let mut out = vec![];
+            while i < end {
+                out.push(i);
+                i = skip(i);
+            }
+            out
+        };
+        if is_array_tok {
+            // object view of an array: no fields, everything is remainder
+            return Some(list(start));
+        }
+        // position after the last field: the value (header + body counts as one value)
+        let mut pos = start;
+        if let Some(last) = fs.last() {
+            pos = match toks.get(last.3) {
+                Some(TextToken::Header(_)) => skip(last.3 + 1),
+                _ => skip(last.3),
+            };
+        }
+        match toks.get(pos) {
+            Some(TextToken::MixedContainer) if pos < end => Some(list(pos + 1)),
+            _ => Some(vec![]),
+        }
+    }
+
+    fn visit<E: Encoding + Clone>(&mut self, vi: usize, v: ValueReader<'d, 't, E>) {
+        if !self.visited.insert(vi) {
+            return;
+        }
+        let mut kids = vec![];
+        match v.token() {
+            TextToken::Object { .. } | TextToken::Array { .. } => {
+                let at = vi.to_string();
+                let o = match v.read_object() {
+                    Ok(o) => self.obj_view(&o, &at, &mut kids),
+                    Err(_) => {
+                        self.bad("read-object", format!("{}: read_object failed on a container", at));
+                        "err".to_string()
+                    }
+                };
+                let a = match v.read_array() {
+                    Ok(a) => self.arr_view(&a, &at, &mut kids),
+                    Err(_) => {
+                        self.bad("read-array", format!("{}: read_array failed on a container", at));
+                        "err".to_string()
+                    }
+                };
+                if v.tokens_len() != v.read_array().map(|a| a.tokens_len()).unwrap_or(0)
+                    && !matches!(v.token(), TextToken::Object { mixed: true, .. })
+                {
+                    self.bad("tokens-len", format!("{}: value tokens_len {}", at, v.tokens_len()));
+                }
+                self.nodes.insert(vi, format!("{}{{O:{};A:{}}}", vi, o, a));
+            }
+            TextToken::Header(_) => {
+                let at = vi.to_string();
+                if v.read_object().is_ok() {
+                    self.bad("read-object", format!("{}: read_object succeeded on a header", at));
+                }
+                let a = match v.read_array() {
+                    Ok(a) => {
+                        let mut hk = vec![];
+                        let s = self.arr_view(&a, &at, &mut hk);
+                        // the first element of a header view is the header token itself
+                        if hk.first().map(|x| x.0) != Some(vi) || hk.len() != 2 {
+                            self.bad("header-view", format!("{}: header view values {:?}", at, hk.iter().map(|x| x.0).collect::<Vec<_>>()));
+                        }
+                        kids.extend(hk.into_iter().skip(1));
+                        s
+                    }
+                    Err(_) => {
+                        self.bad("read-array", format!("{}: read_array failed on a header", at));
+                        "err".to_string()
+                    }
+                };
+                self.nodes.insert(vi, format!("{}{{H:{}}}", vi, a));
+            }
+            _ => {
+                if v.read_object().is_ok() || v.read_array().is_ok() {
+                    self.bad("read-container", format!("{}: read_object/read_array succeeded on {:?}", vi, v.token()));
+                }
+            }
+        }
+        for (i, k) in kids {
+            self.visit(i, k);
+        }
+    }
+
+    fn run<E: Encoding + Clone>(&mut self, root: ObjectReader<'d, 't, E>) -> String {
+        let mut kids = vec![];
+        let r = self.obj_view(&root, "R", &mut kids);
+        for (i, k) in kids {
+            self.visit(i, k);
+        }
+        let mut out = format!("wf=1 R{{O:{}}}", r);
+        for s in self.nodes.values() {
+            out.push(' ');
+            out.push_str(s);
+        }
+        out
+    }
+}
+
+fn walk_tape(tape: &TextTape, case: &str, obs: &mut Obs) -> String {
+    let toks = tape.tokens();
+    let mut w1 = Walk { toks, nodes: BTreeMap::new(), visited: BTreeSet::new(), viol: vec![] };
+    let s1 = w1.run(tape.windows1252_reader());
+    let mut w2 = Walk { toks, nodes: BTreeMap::new(), visited: BTreeSet::new(), viol: vec![] };
+    let s2 = w2.run(tape.utf8_reader());
+    if s1 != s2 {
+        obs.violation("encodings-differ", case, &format!("windows1252 {} utf8 {}", s1, s2));
+    }
+    for (k, d) in w1.viol.iter().chain(w2.viol.iter()) {
+        obs.violation(k, case, d);
+    }
+    // every container / header token of the tape must have been reached through the readers
+    for (i, t) in toks.iter().enumerate() {
+        if matches!(t, TextToken::Array { .. } | TextToken::Object { .. } | TextToken::Header(_)) && !w1.visited.contains(&i) {
+            obs.violation("unreachable", case, &format!("container token {} is not reachable through the readers", i));
+            break;
+        }
+    }
+    obs.count(&format!("nodes:{}", match w1.nodes.len() { 0 => "0", 1..=3 => "1-3", 4..=15 => "4-15", _ => "16+" }));
+    s1
+}
 
 pub fn exec(w: &[&str], obs: &mut Obs) -> Option<String> {
-    None
+    match w {
+        ["dom", h, tape_txt] => {
+            let case = w.join(" ");
+            let d = unhex(h)?;
+            let tape = match TextTape::from_slice(&d) {
+                Ok(t) => t,
+                Err(_) => {
+                    obs.violation("tape-mismatch", &case, "input does not parse");
+                    return Some("noparse".into());
+                }
+            };
+            if text_tape(tape.tokens()) != *tape_txt {
+                obs.violation("tape-mismatch", &case, &format!("real tape is {}", text_tape(tape.tokens())));
+                return Some("tape-mismatch".into());
+            }
+            for t in tape.tokens() {
+                obs.count(match t {
+                    TextToken::Array { mixed: true, .. } => "tok:array-mixed",
+                    TextToken::Array { .. } => "tok:array",
+                    TextToken::Object { mixed: true, .. } => "tok:object-mixed",
+                    TextToken::Object { .. } => "tok:object",
+                    TextToken::MixedContainer => "tok:mixed",
+                    TextToken::Unquoted(_) => "tok:unquoted",
+                    TextToken::Quoted(_) => "tok:quoted",
+                    TextToken::Parameter(_) => "tok:parameter",
+                    TextToken::UndefinedParameter(_) => "tok:undefparameter",
+                    TextToken::Operator(_) => "tok:operator",
+                    TextToken::End(_) => "tok:end",
+                    TextToken::Header(_) => "tok:header",
+                });
+            }
+            let r = walk_tape(&tape, &case, obs);
+            if r.contains("|") {
+                obs.count("has:several-groups");
+            }
+            if r.contains("+") {
+                obs.count("has:duplicate-key-group");
+            }
+            Some(r)
+        }
+        _ => None,
+    }
+}
+
+fn emit_if_parses(g: &mut Gen, d: &[u8], tag: &str) -> bool {
+    match guard(|| TextTape::from_slice(d).map(|t| text_tape(t.tokens()))) {
+        Ok(Ok(t)) => {
+            g.emit(format!("dom {} {}", hex(d), t));
+            g.count(&format!("{}:parsed", tag));
+            true
+        }
+        _ => {
+            g.count(&format!("{}:rejected", tag));
+            false
+        }
+    }
+}
+
+pub const HANDWRITTEN: &[&str] = &[
+    "",
+    "a=b",
+    "name=a core=b core=c",
+    "a=b a=c \"a\"=d b=e a>f",
+    "a={b=c d=e} f={1 2 3}",
+    "a={} b={ } c={{}} d={{} {}}",
+    "obj={1 {foo=bar} 3}",
+    "color = rgb { 1 2 3 } c2 = hsv { 0.1 0.2 0.3 } l = LIST { a b }",
+    "x = { a=b c d }",
+    "x = { a=b c d=e f }",
+    "x = { a=b c d {} e = f }",
+    "x = { a=b c { d=e } f }",
+    "x = { a=b c { d=e f g } h { i } }",
+    "a = { b != c }",
+    "a = { b ?= c }",
+    "a = { x=1 b ?= c }",
+    "a = { b >= c d < e f == g h <= i j > k }",
+    "a b {}",
+    "a b {} c = d",
+    "{} a=b {} {} c=d",
+    "a = { {} b=c {} }",
+    "a = { [[x] y=z ] [[!w] v ] q=r }",
+    "a = { [[x] y ] }",
+    "a = { [[x] y=z w={1 2} ] }",
+    "generate = { [[scope] v ] { 1 } }",
+    "a = { b = c",
+    "a = { b = { c = d } ",
+    "a=b } } c=d",
+    "a = { 1 2 = 3 }",
+    "a = { 1 2 = { 3 } 4 }",
+    "a = { b = rgb { 1 2 3 } rgb { 4 5 6 } }",
+    "a = { b = hsv { 1 } c }",
+    "a = { b c = hsv { 1 } }",
+    "a = { b = { c } d = { e = f } d = { g } }",
+    "a{b=c}d{e}",
+    "@v = 1 x = @[v+1] y = \"q\" \"q r\" = { \"s\" }",
+    "a = { { b } { c=d } { } }",
+    "a = { b = c d = e } a = { f } a = g",
+    "foo={bar=qux baz=quux bar=2} foo={x}",
+];
+
+pub fn gen(g: &mut Gen) {
+    for s in HANDWRITTEN {
+        emit_if_parses(g, s.as_bytes(), "handwritten");
+    }
+    // exhaustive short strings over a structural alphabet
+    {
+        let alpha: &[u8] = b"a{}= <";
+        let maxlen = g.budget(6, 7);
+        let mut cur: Vec<u8> = vec![];
+        fn rec(g: &mut Gen, alpha: &[u8], cur: &mut Vec<u8>, maxlen: usize) {
+            if !cur.is_empty() {
+                emit_if_parses(g, cur, "exhaustive");
+            }
+            if cur.len() == maxlen {
+                return;
+            }
+            for &a in alpha {
+                cur.push(a);
+                rec(g, alpha, cur, maxlen);
+                cur.pop();
+            }
+        }
+        rec(g, alpha, &mut cur, maxlen);
+    }
+    // model documents under random layouts
+    let cfg = DocCfg::text_full();
+    let lay = LayoutCfg::full();
+    let n = g.budget(4_000, 60_000);
+    let mut pool: Vec<Vec<u8>> = vec![];
+    for i in 0..n {
+        let mut c = cfg.clone();
+        if i % 3 == 0 {
+            // many duplicate keys
+            c.max_fields = 8;
+            c.typed = false;
+            c.quoted_keys = true;
+        }
+        let doc = gen_doc(&mut g.rng, &c);
+        let lex = lexemes(&doc);
+        let txt = if i % 4 == 0 { render_canonical(&lex) } else { render_layout(&mut g.rng, &lay, &lex) };
+        if emit_if_parses(g, &txt, "docgen") && pool.len() < 2000 {
+            pool.push(txt);
+        }
+    }
+    // small documents over a tiny key pool: dense duplicates, mixed, operators, parameters
+    let n = g.budget(4_000, 60_000);
+    for _ in 0..n {
+        let mut s = Vec::new();
+        small_body(&mut g.rng, 0, &mut s);
+        emit_if_parses(g, &s, "small");
+    }
+    // malformed stream: mutations of accepted documents and random strings that happen to parse
+    let n = g.budget(6_000, 100_000);
+    for _ in 0..n {
+        let base = if pool.is_empty() { b"a={b=c d e}".to_vec() } else { g.rng.pick(&pool).clone() };
+        let m = mutate(&mut g.rng, &base, TEXT_ALPHABET);
+        emit_if_parses(g, &m, "mutated");
+    }
+    let n = g.budget(8_000, 150_000);
+    for _ in 0..n {
+        let m = random_text(&mut g.rng, 24);
+        emit_if_parses(g, &m, "random");
+    }
+}
+
+/// free-form token soup biased to what the tape parser tolerates
+fn small_body(rng: &mut Rng, depth: usize, out: &mut Vec<u8>) {
+    let n = rng.below(7);
+    for _ in 0..n {
+        match rng.below(20) {
+            0..=8 => {
+                out.extend_from_slice(*rng.pick(&[&b"a"[..], b"b", b"c", b"\"a\"", b"\"b\"", b"1", b"@a"]));
+                out.extend_from_slice(*rng.pick(&[&b"="[..], b"=", b"=", b"=", b" = ", b"<", b">=", b"!=", b"?=", b"==", b" "]));
+                match rng.below(8) {
+                    0 | 1 if depth < 4 => {
+                        out.push(b'{');
+                        small_body(rng, depth + 1, out);
+                        out.push(b'}');
+                    }
+                    2 if depth < 4 => {
+                        out.extend_from_slice(*rng.pick(&[&b"rgb{"[..], b"hsv {", b"LIST{"]));
+                        small_body(rng, depth + 1, out);
+                        out.push(b'}');
+                    }
+                    _ => out.extend_from_slice(*rng.pick(&[&b"x"[..], b"y", b"\"z\"", b"1", b"a"])),
+                }
+            }
+            9 | 10 => out.extend_from_slice(*rng.pick(&[&b"a"[..], b"b", b"x", b"\"q\""])),
+            11 | 12 if depth < 4 => {
+                out.push(b'{');
+                small_body(rng, depth + 1, out);
+                out.push(b'}');
+            }
+            13 => out.extend_from_slice(b"{}"),
+            14 => {
+                out.extend_from_slice(if rng.chance(1, 2) { b"[[p]" } else { b"[[!p]" });
+                if rng.chance(1, 2) {
+                    out.extend_from_slice(b" v ]");
+                } else {
+                    out.push(b' ');
+                    small_body(rng, depth + 1, out);
+                    out.extend_from_slice(b" ]");
+                }
+            }
+            15 => out.extend_from_slice(*rng.pick(&[&b"="[..], b"<", b">", b"!=", b"}"])),
+            _ => out.extend_from_slice(*rng.pick(&[&b"a"[..], b"b", b"c"])),
+        }
+        out.push(b' ');
+    }
 }
 
 pub fn tables() -> String {
